@@ -226,6 +226,7 @@ class Driver:
         self.opts = dict(opts or {})
         self.tune_ok = True
         self.tune_log = []
+        self.acc_log = []
         self.xi_seen = []
         self.rng = None
         x0 = np.array(x0, dtype=float)
@@ -347,6 +348,11 @@ class Driver:
             base = {"mh": E.MH, "cw": E.CWMH, "pcn": E.PCN, "mala": E.MALA, "ula": E.ULA}[self.kind]
 
             class Spy(base):                                   # tune() must leave point and caches alone
+                def step(self):
+                    a_ = super().step()
+                    drv.acc_log.append([int(b) for b in np.ravel(a_)])
+                    return a_
+
                 def tune(self, skip_len, update_count):
                     before = drv._snapshot(self)
                     tname = "lambd" if drv.kind == "pcn" else "_scale_temp"
@@ -356,8 +362,13 @@ class Driver:
                             win = self._acc[update_count * skip_len:(update_count + 1) * skip_len]
                         else:
                             win = self._acc[-skip_len:]
+                        # the window the adaptation is documented to use, from the harness's own record of the accept flags:
+                        # the initial 1 followed by the flags of all COMPLETED iterations (the current step's flag is appended
+                        # to _acc only after tune())
+                        hist_ = [[1] * (drv.T.dim if drv.kind == "cw" else 1)] + drv.acc_log[:-1]
+                        own = hist_[update_count * skip_len:(update_count + 1) * skip_len] if drv.kind == "cw" else hist_[-skip_len:]
                         rec = {"kind": drv.kind, "k": int(update_count) + 1, "dim": drv.T.dim,
-                               "window": [[int(b) for b in np.ravel(w)] for w in win],
+                               "window": own, "window_in_sampler": [[int(b) for b in np.ravel(w)] for w in win],
                                "temp0": np.array(getattr(self, tname), dtype=float).reshape(-1).tolist()}
                     r = super().tune(skip_len, update_count)
                     after = drv._snapshot(self)
@@ -1000,6 +1011,9 @@ def build_case(ctx, spec):
         flag("transition raised %s" % o["err"], SIG_DIM1 if (kind == "cw" and d == 1) else "|raises")
         return Case(expr="true", meta=spec, cell=cell, kind="DECISION", impl_fail=fail, signature=sig), o
 
+    bad_draw = [t for t in o["unexpected"] if t.startswith("uniform") or t.startswith("rand")]
+    if bad_draw:
+        flag("the accept/reject uniform is not drawn from U(0,1): %s" % bad_draw, "|accept-draw-not-uniform01")
     # ---- oracle part 2: decision = MH probability; nonfinite never accepted; reject keeps everything ----
     if kind in ("mh", "pcn", "mala"):
         acc = bool(o["acc"])
@@ -1013,6 +1027,11 @@ def build_case(ctx, spec):
                 # (`not np.isinf`) refuses it, and so does the oracle
                 flag("proposal %s with target log-density %s was accepted (current log-density %r, log u = %r)"
                      % (xs.tolist(), e_star, ld0, logus[0]), SIG_NONFINITE)
+            elif e0 == "ninf" and not isinstance(e_star, str) and math.isinf(ld0) and ld0 < 0:
+                # pi(x) = 0 and pi(x') > 0: the MH ratio is +inf, probability 1 -- the chain must be able to enter the support
+                if not acc and logus[0] <= 0:
+                    flag("current log-density -inf, proposal %s has finite log-density %r (MH probability 1) but was rejected"
+                         % (xs.tolist(), Fval(e_star)), "|zero-density-state-stuck")
             elif rho is not None and not math.isnan(rho) and not isinstance(e_star, str):
                 thr = min(0.0, rho)
                 lu = logus[0]
@@ -1059,6 +1078,10 @@ def build_case(ctx, spec):
                 if (is_bad(new) or new == "pinf") and accs[j]:
                     flag("component %d: proposal %s with target log-density %s was accepted (running log-density %s, log u = %r)"
                          % (j, [float(v) for v in xs_], new, cur, lu), SIG_NONFINITE)
+                elif cur == "ninf" and not isinstance(new, str):
+                    if not accs[j] and lu <= 0:
+                        flag("component %d: running log-density -inf, proposal has finite log-density (MH probability 1) but was rejected" % j,
+                             "|zero-density-state-stuck")
                 elif not isinstance(new, str) and not isinstance(cur, str):
                     thr = min(0.0, float(new - cur))
                     margin = 1e-7 * (1 + abs(thr))
@@ -1103,7 +1126,7 @@ def build_case(ctx, spec):
             cstate(x1, ld1, gr1), clist([cbool(a) for a in np.ravel(o["acc"])]), logc, cbool(legacy))
     elif kind == "pcn":
         s_ = float(sc[0])
-        a_ = float(np.sqrt(1 - s_ ** 2))
+        a_ = float(np.sqrt(max(1 - s_ ** 2, 0.0)))          # a scale above 1 (never produced by the unchanged tune) must not crash the harness
         expr = "check_pcn %s %s %s %s %s %s %s %s %s %s %s %s %s %s %s %s" % (
             tolq, Tc, cbool(st["c"][site]), g, cq(a_), cq(s_), cqvec(spec["prior"]["mean"]), cstate(x0, ld0, gr0),
             cqvec(o["xi"] if o["xi"] is not None else []), cext(logus[0]), cqvec(o["stars"][0] if o["stars"] else []),
